@@ -14,7 +14,7 @@ CLAIMED = {
              text="Model checking of uniqueness/contiguity/ordering over all bounded programs x destination-failure masks x call-boundary interleavings; conformance of the real library by TLC trace validation with every delivered message's (uuid, level) compared with the specification's prediction.", ref="6 C02"),
  "C03": dict(tech="TLA+ spec + TLC invariants C03_OneStartOneEnd/StatusTruthful/FieldPlacement + trace validation with real exceptions (BaseException-only, str() raising, extractor at class/base/raising) raised inside real with-blocks, identity of propagated exception; Deferred.tla (DeferredContext.addActionFinish: one truthful end, result passed on) with every TLC behaviour replayed on the real class",
              text="Model checking over all exit kinds at every nesting level and repeated finish; real executions raise witness exceptions inside real `with` statements and are validated event by event (status, fields, propagation).", ref="6 C03"),
- "C04": dict(tech="TLA+ spec + TLC invariant C04_Inside and action property C04_Restore over all nestings of with/context()/run() + trace validation comparing current_action() before/after every call; Deferred.tla (callbacks run inside the action, AlreadyFinished guard, caller context untouched) replayed on the real DeferredContext",
+ "C04": dict(tech="TLA+ spec + TLC invariant C04_Inside and action property C04_Restore over all nestings of with/context()/run() + trace validation comparing current_action() before/after every call; Deferred.tla (callbacks run inside the action, AlreadyFinished guard, caller context untouched) replayed on the real DeferredContext; Route.tla behaviours replayed: a message logged inside an action's block takes its position from that action whatever logger it is written to (clause message_position)",
              text="Exhaustive nestings (bounded depth) of the three scoping constructs with every exit kind on the model; on the code current_action() is read before and after every call of TLC-generated and random deep nestings and compared with the spec.", ref="6 C04"),
  "C05": dict(tech="TLA+ spec + TLC action property C05_NoLeak over all call-boundary interleavings of 3-4 contexts (threads and context-copying tasks) + trace validation on real threads driven by TLC/random schedules",
              text="All interleavings of bounded multi-context programs on the model; schedules (as data) are forced on real threads, with current_action() read inside each context before and after each of its steps.", ref="6 C05"),
